@@ -1977,6 +1977,11 @@ def _lean_balanced(ctx, heavy, light, chunks=8):
     """one driver batch for the (expensive) cycle requests and the (cheap) smoother requests; common.lean_batch cuts the
     list into `chunks` contiguous blocks that run in parallel, so the expensive lines are dealt round-robin over the blocks"""
     n = len(heavy) + len(light)
+    import os
+    if os.environ.get('E38_DUMP'):
+        with open(os.environ['E38_DUMP'], 'a') as f:
+            for ln in heavy + light:
+                f.write(ln + '\n')
     if n == 0:
         return [], []
     if n < 4 * chunks or len(heavy) < chunks:
